@@ -1,5 +1,6 @@
 import OhkamiModel.HttpProofs
 import OhkamiModel.HttpSound
+import OhkamiModel.HeaderJoin
 import OhkamiModel.M.HttpObs
 import OhkamiModel.GenConsts
 /-! # C02 — property theorems about the model of `Request::read` (OhkamiModel/Http.lean) -/
@@ -80,5 +81,45 @@ theorem tchar_is_rfc9110 : ∀ n : Fin 256, Ohkami.Http.isTchar (UInt8.ofNat n.v
 `finish` in the model is the order of `Request::read` in the source, as the translator reads it on every run — so whether a length is refused does not depend on
 where the body bytes happen to be (the first read or later ones) -/
 theorem source_limits_before_loading : Ohkami.Gen.limitCheckedBeforeLoading = true := by decide
+
+/-- **Repeated headers are joined in order; names compare in any letter case** (names outside the table).  With `hs` the header lines of
+the wire (`parse_sound` gives them), what `Headers::get(n)` hands a handler is `v1`, `", " v2`, … over exactly the lines whose name equals `n`
+up to letter case, in wire order — and nothing when there is no such line. -/
+theorem get_custom_joined (hs : List (Bytes × Bytes)) (p : Parsed) (hp : (p.std, p.custom) = foldHeaders hs)
+    (n : Bytes) (hn : stdIndex n = none) : getHeader p n = joinOnto none (valuesOf hs n) := by
+  have h2 : p.custom = (foldHeaders hs).2 := congrArg Prod.snd hp
+  have hl := look_fold hs n hn ([], [])
+  have hno : Gen.reqHeaderLower.findIdx? (fun t => t == n.map lower) = none := by
+    simpa [stdIndex, List.idxOf?] using hn
+  unfold getHeader
+  rw [h2]
+  unfold foldHeaders
+  simp only [look, List.find?_nil, Option.map_none] at hl
+  cases hf : List.find? (fun x => sameName x.1 n) (List.foldl stepH ([], []) hs).2 with
+  | some nv => rw [hf] at hl; simpa using hl
+  | none => rw [hf] at hl; simp only [hno]; simpa using hl
+
+/-- the same for the names of the table: the `i`-th typed accessor sees the join of the lines spelt as that name in any letter case -/
+theorem get_std_joined (hs : List (Bytes × Bytes)) (p : Parsed) (hp : (p.std, p.custom) = foldHeaders hs) (i : Nat) :
+    getStd p i = joinOnto none (stdValuesOf hs i) := by
+  have h1 : p.std = (foldHeaders hs).1 := congrArg Prod.fst hp
+  have hl := lookStd_fold hs i ([], [])
+  unfold getStd
+  rw [h1]
+  simpa [lookStd, foldHeaders] using hl
+
+/-- the statement at the level of the wire: an accepted request's accessors see the joins of its own header lines -/
+theorem accepted_headers_joined (first more : Bytes) (p : Parsed) (h : parse first more = .ok p) :
+    ∃ hs : List (Bytes × Bytes), (∃ pre rest, first = pre ++ (encodeHeaders hs ++ [CR, LF] ++ rest)) ∧
+      (∀ n, stdIndex n = none → getHeader p n = joinOnto none (valuesOf hs n)) ∧
+      (∀ i, getStd p i = joinOnto none (stdValuesOf hs i)) := by
+  obtain ⟨m, path, query, hs, remaining, hfirst, _, _, _, _, _, _, _, _, _, hfold, _⟩ := parse_sound first more p h
+  refine ⟨hs, ⟨m ++ SP :: (path ++ queryBytes query ++ SP :: HTTP11), remaining, ?_⟩,
+    fun n hn => get_custom_joined hs p hfold n hn, fun i => get_std_joined hs p hfold i⟩
+  rw [hfirst]; simp
+
+-- not vacuous: `x-foo: 1`, `Other: z`, `X-Foo: 2` read as `X-FOO`
+example : joinOnto none (valuesOf [([120, 45, 102, 111, 111], [49]), ([79, 116, 104, 101, 114], [122]), ([88, 45, 70, 111, 111], [50])] [88, 45, 70, 79, 79])
+    = some [49, 44, 32, 50] := by decide
 
 end C02
